@@ -331,7 +331,7 @@ def main():
                 ev.setdefault("coverage_goals", {})
                 ev["coverage_goals"][k] = ev["coverage_goals"].get(k, 0) + v
         ev["drivers"].append({"args": j["driver"]["args"], "seed": j["seed"], "stats": stats})
-        env = {"MON_" + m: "1" for m in P["monitors"]}
+        env = {"MON_" + m: "1" for m in j["driver"].get("monitors", P["monitors"])}
         if not j["driver"].get("conformance", True):
             env["NOCONF"] = "1"
         vjobs.append({"trace": j["trace"], "spec": j["driver"].get("spec", "Trace_Node"),
